@@ -950,6 +950,8 @@ pub fn judge_under_faults(plan: &ClientPlan, run: &ClientRun) -> Judged {
                                 // offered in an attempt that never completed (connection lost before the
                                 // completion): the terminal issued another number for the reservation it booked
                                 j.fail("C07", "reversal_receipt", name, format!("{name}({token:?}) acts on receipt {r}, which the terminal offered in an attempt that never completed; the reservation it completed for this token got {:?}", issued_for_token));
+                                // C08's side: "against the receipt number ... of that reservation"
+                                j.fail("C08", if is_commit { "commit_fields" } else { "cancel_fields" }, format!("{name}/receipt_of_an_unfinished_attempt"), format!("{name}({token:?}) names receipt {r} of an attempt that never completed; the reservation the terminal completed for this token has {:?}", issued_for_token));
                             }
                         } else if !dangling.contains(&(r as u16)) {
                             j.fail("C07", "foreign_receipt", name, format!("{name}({token:?}) reversed receipt {r}, neither its own nor reported as dangling"));
